@@ -490,11 +490,66 @@ void manyCase(Ctx& c, long j)
     c.count("many_devices_or_interfaces_cases");
 }
 
+// deterministic: status payloads longer than the 16-bit wire length can express (InterfacePayload::setData takes two 16-bit
+// counts, so interface status payloads of up to 131111 bytes are ordinary objects; capture-module payloads likewise): the
+// tracker owes the same latest-message map for them, in particular around the lengths where the 16-bit length wraps
+void bigPayloadCase(Ctx& c)
+{
+    static const size_t lens[] = {65535, 65536, 65540, 65571, 65572, 70000, 131072, 131107, 131108};
+    Status st;
+    Model m;
+    std::string path = "update(cm,dev1); ";
+    uint64_t ts = 1000;
+    const uint16_t dev = kDevs[0];
+    {
+        Packet p = cmPacket(dev, ts);
+        st.update(p);
+        m[dev].cm = snapPacket(p);
+    }
+    std::vector<uint8_t> filler(65535, 0x5C);
+    for (int round = 0; round < 2; ++round)
+        for (size_t k = 0; k < sizeof lens / sizeof lens[0]; ++k)
+        {
+            const size_t L = lens[k], rest = L - 40;
+            const uint16_t ids = rest > 65535 ? 65534 : 0;
+            const uint16_t vendor = static_cast<uint16_t>(rest - ids);
+            const uint32_t ifid = round == 0 ? static_cast<uint32_t>(100 + k) : kIfs[k % 3];  // new interfaces, then updates of three
+            ASAM::CMP::InterfacePayload pl;
+            pl.setInterfaceId(ifid);
+            pl.setMsgTotalRx(static_cast<uint32_t>(++ts));
+            pl.setData(filler.data(), ids, filler.data(), vendor);
+            Packet p;
+            p.setPayload(pl);
+            p.setDeviceId(dev);
+            p.setTimestamp(ts);
+            st.update(p);
+            m[dev].ifs[ifid] = snapPacket(p);
+            path += "update(if " + std::to_string(ifid) + ", payload of " + std::to_string(pl.getLength()) + " bytes); ";
+            ++c.evaluations;
+            // (the shared comparison looks at the small id alphabet; the entries of this case are checked here)
+            size_t di = st.getIndexByDeviceId(dev);
+            if (di >= st.getDeviceStatusCount())
+            {
+                c.violation("C16:lookup-of-present-device", "device lost", path);
+                continue;
+            }
+            const auto& ds = st.getDeviceStatus(di);
+            if (ds.getInterfaceStatusCount() != m[dev].ifs.size())
+                c.violation("C16:interface-count", "getInterfaceStatusCount()=" + std::to_string(ds.getInterfaceStatusCount()) + ", " + std::to_string(m[dev].ifs.size()) + " interfaces have sent a status", path);
+            size_t j = ds.getIndexByInterfaceId(ifid);
+            if (j >= ds.getInterfaceStatusCount())
+                c.violation("C16:lookup-of-present-interface", "interface " + std::to_string(ifid) + " (payload of " + std::to_string(L) + " bytes) has no entry", path);
+            else if (snapPacket(ds.getInterfaceStatus(j).getPacket()) != m[dev].ifs[ifid])
+                c.violation("C16:interface-entry-is-not-latest-if-status", "interface " + std::to_string(ifid) + " (payload of " + std::to_string(L) + " bytes): the entry does not hold the latest packet", path);
+            c.count("status_payloads_longer_than_the_16_bit_wire_length");
+        }
+}
+
 long countCases(Ctx& c)
 {
     if (c.prop != "C16")
         return -1;
-    return static_cast<long>(ops().size() * ops().size()) + 2 + (c.thorough() ? 50000 : 3000);
+    return static_cast<long>(ops().size() * ops().size()) + 3 + (c.thorough() ? 50000 : 3000);
 }
 void runCase(Ctx& c, long idx)
 {
@@ -503,6 +558,8 @@ void runCase(Ctx& c, long idx)
         return dfsCase(c, idx);
     if (idx < n + 2)
         return manyCase(c, idx - n);
+    if (idx == n + 2)
+        return bigPayloadCase(c);
     randomCase(c, idx);
 }
 
